@@ -28,6 +28,7 @@ inductive Op
   | setTitle (t : List Byte)
   | normalBuffer | altBuffer
   | setSize (e : Extent)                -- terminal.set_size(e)
+  | rawWrite (bs : List Byte)           -- terminal.write(bytes): handed to the channel unchanged
 deriving DecidableEq, Repr, Inhabited
 
 -- ---------------------------------------------------------------- cursor.cpp
@@ -139,6 +140,7 @@ def step (beh : Behaviour) (s : TermState) : Op → TermState × List Byte
   | .normalBuffer => (s, normalBufferBytes)
   | .altBuffer => (s, altBufferBytes)
   | .setSize e => ({ s with size := e, cursor := none, saved := none }, [])
+  | .rawWrite bs => (s, bs)
 
 /-- a history of operations: final state and everything written to the channel -/
 def run (beh : Behaviour) : TermState → List Op → TermState × List Byte
